@@ -1,4 +1,70 @@
-(* placeholder: model under construction *)
-From Coq Require Import List ZArith.
+(* Model of TexSoup.utils.CharToLineOffset (utils.py:462-491).
+
+     def __init__(self, src):
+         self.line_break_positions = [i for i, c in enumerate(src) if c == '\n']
+         self.src_len = len(src)
+
+     def __call__(self, char_pos):
+         line_no = bisect.bisect_left(self.line_break_positions, char_pos)
+         if line_no == 0:
+             char_no = char_pos
+         elif line_no == len(self.line_break_positions):
+             line_start = self.line_break_positions[-1]
+             char_no = min(char_pos - line_start - 1, self.src_len - line_start)
+         else:
+             char_no = char_pos - self.line_break_positions[line_no - 1] - 1
+         return line_no, char_no
+
+   A source is a list of code points (N); offsets, lines and columns are Z
+   (char_pos is an arbitrary Python int: negative and too large values are
+   accepted by the code and by the model alike).  No proofs here; see
+   Proofs/CLOProofs.v. *)
+From Coq Require Import List NArith ZArith Bool.
 Import ListNotations.
-Definition run_clo (inp : list Z) : list Z := [].
+Open Scope Z_scope.
+
+Definition is_lf (c : N) : bool := N.eqb c 10%N.
+
+(* [i for i, c in enumerate(src, start=k) if c == '\n'] *)
+Fixpoint line_breaks_from (src : list N) (k : Z) : list Z :=
+  match src with
+  | [] => []
+  | c :: r => if is_lf c then k :: line_breaks_from r (k + 1)
+              else line_breaks_from r (k + 1)
+  end.
+
+Definition line_breaks (src : list N) : list Z := line_breaks_from src 0.
+
+(* bisect.bisect_left(l, x) on a list sorted in increasing order: the insertion
+   point that keeps l sorted and lies left of any element equal to x, i.e. the
+   number of elements < x.  (line_break_positions is strictly increasing by
+   construction; CLOProofs.line_breaks_sorted.) *)
+Fixpoint bisect_left (l : list Z) (x : Z) : nat :=
+  match l with
+  | [] => O
+  | y :: r => if y <? x then S (bisect_left r x) else bisect_left r x
+  end.
+
+(* Python l[-1] on a non-empty list / l[k] for 0 <= k < len l; the default 0 is
+   never reached from clo (the branches guarantee a valid index). *)
+Definition py_last (l : list Z) : Z := last l 0.
+Definition py_nth (l : list Z) (k : Z) : Z := nth (Z.to_nat k) l 0.
+
+Definition clo (src : list N) (char_pos : Z) : Z * Z :=
+  let lbp := line_breaks src in
+  let src_len := Z.of_nat (length src) in
+  let line_no := Z.of_nat (bisect_left lbp char_pos) in
+  if line_no =? 0 then
+    (line_no, char_pos)
+  else if line_no =? Z.of_nat (length lbp) then
+    let line_start := py_last lbp in
+    (line_no, Z.min (char_pos - line_start - 1) (src_len - line_start))
+  else
+    (line_no, char_pos - py_nth lbp (line_no - 1) - 1).
+
+(* Generic driver entry: [offset; c0; c1; ...] (code points) -> [line; col]. *)
+Definition run_clo (inp : list Z) : list Z :=
+  match inp with
+  | [] => []
+  | off :: cs => let (l, c) := clo (map Z.to_N cs) off in [l; c]
+  end.
